@@ -2,7 +2,7 @@
 import json
 import os
 
-from vlib import confirm_by_replay, finish, selftest_corrupt, Inconclusive
+from vlib import confirm_by_replay, finish, selftest_corrupt, Inconclusive, model_disagreements, gate_model
 
 
 def text(evs, clauses):
@@ -17,14 +17,16 @@ def text(evs, clauses):
         return ""
 
 
-def run(run, pid, whats, prefixes, assumptions, selftests, sig=None):
+def run(run, pid, whats, prefixes, assumptions, selftests, sig=None, env=None):
     run.build()
     fails = []
     traces = []
+    md = []
     for what in whats:
-        trace, st = run.drive("copy", name="copy-" + what, extra=["-what", what])
+        trace, st = run.drive("copy", name="copy-" + what, extra=["-what", what], env=env)
         traces.append(trace)
         tr = run.tlc_trace("CopyTrace", trace)
+        md += model_disagreements(tr)
         hf = [f for f in tr["failed"] if any(c.startswith("HARNESS.") for c in f["clauses"])]
         if hf:
             raise Inconclusive("harness-level inconsistency in copy trace: %s" % hf[:2])
@@ -39,6 +41,7 @@ def run(run, pid, whats, prefixes, assumptions, selftests, sig=None):
         fails += confirm_by_replay_copy(run, tr, prefixes, sig, what)
     for nm, fn, idx in selftests:
         selftest_prefixed(run, traces[idx], fn, nm, prefixes)
+    gate_model(md, fails)
     return finish(run, "model_checking", fails, assumptions=assumptions)
 
 
